@@ -745,7 +745,27 @@ func v2LongHists() [][]v2Block {
 			h2 = append(h2, v2Block{})
 		}
 	}
-	return [][]v2Block{h1, h2}
+	// a taller tree (8 keys, height 3-4) with removals of absent keys (no-ops that must not touch anything)
+	k8 := []string{"a", "aa", "b", "bz", "c", "d", "e", "z"}
+	var h3 []v2Block
+	var first v2Block
+	for _, k := range k8 {
+		first = append(first, v2Op{K: k})
+	}
+	h3 = append(h3, first)
+	for i := 1; i < 13; i++ {
+		switch i % 4 {
+		case 1:
+			h3 = append(h3, v2Block{{Del: true, K: "d"}}) // removes d the first time, an absent key afterwards
+		case 2:
+			h3 = append(h3, v2Block{{Del: true, K: "0"}}) // never present
+		case 3:
+			h3 = append(h3, v2Block{{K: k8[i%8]}})
+		default:
+			h3 = append(h3, v2Block{{Del: true, K: "d"}, {K: k8[(i+3)%8]}})
+		}
+	}
+	return [][]v2Block{h1, h2, h3}
 }
 
 func v2LongCfgs() []v2Cfg {
